@@ -270,7 +270,7 @@ PROPS = {
             {"scen": "threads", "env": {}, "runs": 1500 if tier == "quick" else 120_000, "configs": ["fine"], "first": 30_000_000, "timeout": 90, "chunk": 20},
             {"scen": "exc", "env": {"threads": 3}, "runs": 1500 if tier == "quick" else 150_000, "configs": ["fine"], "first": 40_000_000, "timeout": 60},
         ],
-        "rare_probes": ["thr.trylock_failed_then_lock", "thr.main_in_section_at_start", "thr.join_before_finish", "thr.join_after_finish", "thr.trylock_spins", "thr.alloc_threads", "sched.lib_switches", "sched.switches", "exc.thread_programs"],
+        "rare_probes": ["thr.main_collects_while_workers_run", "thr.trylock_failed_then_lock", "thr.main_in_section_at_start", "thr.join_before_finish", "thr.join_after_finish", "thr.trylock_spins", "thr.alloc_threads", "sched.lib_switches", "sched.switches", "exc.thread_programs"],
         "assumptions": ["interleaving granularity is the yield point under sequential consistency; weak-memory effects are not simulated",
                         "stop(thread) (signal based) and objects handed between threads are outside the workload"],
     },
